@@ -220,7 +220,7 @@ theorem specOrder_iff (p q : Cluster × Int) :
   unfold specOrder; simp only [decide_eq_true_eq]
 theorem specShare_iff (p q : Cluster × Int) :
     specShare p q = true ↔ ((0 < ratio p.1 ∧ ratio p.1 ≤ ratio q.1) →
-      |(p.2 : Rat) * ratio q.1 - (q.2 : Rat) * ratio p.1| ≤ ratio q.1) := by
+      |(p.2 : Rat) * ratio q.1 - (q.2 : Rat) * ratio p.1| ≤ ratio q.1 * (1 + 1 / 1024)) := by
   unfold specShare
   simp only [decide_eq_true_eq]
   constructor
